@@ -1483,6 +1483,29 @@ def case_observe_seq(case):
 
 
 def run_case(case):
+    """The rigs run the drivers on a real event loop (2 ms receive window, 3 s to finish): on a starved machine a case
+    can time out without the library being at fault.  A verdict against the library therefore has to reproduce: the
+    case is run again, and only what shows in two runs is reported (the library is deterministic; starvation is not)."""
+    vs = _run_case_once(case)
+    if not vs:
+        return vs
+    again = _run_case_once(case)
+    both = [v for v in vs if v[0] in {x[0] for x in again}]
+    if len(both) != len(vs) or len(again) != len(vs):
+        third = _run_case_once(case)
+        seen = {}
+        for run in (vs, again, third):
+            for sig, msg in run:
+                seen.setdefault(sig, []).append(msg)
+        both = [(sig, msgs[0]) for sig, msgs in seen.items() if len(msgs) >= 2]
+        _UNREPRODUCED[0] += len(seen) - len(both)
+    return both
+
+
+_UNREPRODUCED = [0]
+
+
+def _run_case_once(case):
     kind = case["kind"]
     return {"encode": case_encode, "length": case_length, "seq": case_seq, "decode": case_decode,
             "observe": case_observe, "unipi-bus": case_unipi_bus, "seqmix": case_seqmix,
@@ -1529,7 +1552,7 @@ def _enc_shard(arg):
             case = {"kind": "encode", "driver": driver, "bits": bits, "value": value, "dt": dt}
             res.count()
             res.nontrivial()
-            vs = case_encode(case)
+            vs = run_case(case)
             _note(res, case, vs)
         res.label("encode:%d-bit:%s%s" % (bits, "send-twice" if cmd.sendtwice else "once",
                                          ":query" if cmd.response is not None else ""))
